@@ -73,6 +73,8 @@ class Job:
                 out.append("TC %d" % i)
             elif t[0] == "copylate":
                 out.append("TCL %d" % i)
+            elif t[0] == "api":
+                out.append("TA %d %s" % (i, " ".join(str(x) for x in t[1])))
             else:
                 out.append("TW %d %d" % (i, t[1]))
         return out
@@ -82,8 +84,10 @@ class Job:
         return "S %s %s" % (self.id, " ".join("%s=%s" % kv for kv in sorted(cfg.items())))
     def text(self, extra=None, more=()):
         return "\n".join([self.header(extra)] + self.setup_lines() + self.thread_lines() + list(more) + ["E"]) + "\n"
+    def has_api(self):
+        return any(t[0] == "api" for t in self.threads)
     def describe(self):
-        return [(" ".join(t[1]) if t[0] == "cmd" else t[0] + ("" if len(t) < 2 else " %s" % t[1])) for t in self.threads]
+        return [(" ".join(str(x) for x in t[1]) if t[0] in ("cmd", "api") else t[0] + ("" if len(t) < 2 else " %s" % t[1])) for t in self.threads]
     def to_json(self):
         return {"id": self.id, "threads": [list(t) for t in self.threads], "cfg": self.cfg}
 
@@ -209,6 +213,13 @@ class C05(PropertyCheck):
         # defect "the copy shares sets / sorted sets / hashes with the store by pointer"): the model's copy is a value
         for i, a in enumerate([c for c in pool if c[0] in ("SADD", "SREM", "SMOVE", "ZADD", "ZINCRBY", "ZREM", "HSET", "HDEL", "LPUSH", "APPEND")]):
             jobs.append(Job("cl%d" % i, [("cmd", a), ("copylate",)]))
+        # calls of the embedded API that do not go through handleCommand (SwapDBs, Flush) against commands on connections.
+        # They used to bypass the command lock (repaired: GET lost its key to a concurrent Flush between keysExist and
+        # getValues); they are not programs of the model, so they are judged by the serial-order oracle and by "no thread
+        # is ever blocked by a parked one" (every yield point is a place where no lock but the command lock is held)
+        for i, a in enumerate([["swapdbs", 0, 1], ["swapdbs", 1, 2], ["flush", 0], ["flush", -1]]):
+            for k, b in enumerate([["SELECT", "1"], ["SWAPDB", "0", "1"], ["SET", "k", "v"], ["GET", "n"], ["FLUSHDB"], ["INCR", "n"]]):
+                jobs.append(Job("api%d_%d" % (i, k), [("api", a), ("cmd", b)]))
         # three commands
         trip = list(itertools.combinations(range(len(core)), 3))
         rng.shuffle(trip)
@@ -230,7 +241,8 @@ class C05(PropertyCheck):
             more[j.id] = [l.split(" | ")[0] for l in ls if l[:2] in ("Q ", "O ")]
         by_mode = {}
         for j in jobs:
-            by_mode.setdefault(modes[j.id], []).append(j)
+            if not j.has_api():
+                by_mode.setdefault(modes[j.id], []).append(j)
         model = {}
         for m, js in by_mode.items():
             model.update(run_many([os.path.join(BUILD, "modelrun"), "conc"], js, dict(extra, mode=m), more, nproc=6, timeout=900))
@@ -274,7 +286,9 @@ class C05(PropertyCheck):
                 else:
                     stats["serial_orders"] += 1
                 # the model, schedule by schedule
-                if (k, s) in mq:
+                if j.has_api():
+                    stats["api_schedules"] = stats.get("api_schedules", 0) + 1
+                elif (k, s) in mq:
                     mo, md = mq[(k, s)]
                     stats["compared"] += 1
                     if not (same_outcomes(j, o, mo) and norm_digest("G " + d, with_mem=False) == norm_digest("G " + md, with_mem=False)):
